@@ -34,7 +34,7 @@ DRIVER = "drv-c02"
 PROOF_MODULES = ["TetlProofs.C02.Props"]
 HARNESS = "harness/c02.cpp"
 # the whole harness is the "pattern" leg: automatic variables are filled with 0xFE, heap objects with 0xAA
-HARNESS_FLAGS = ["-ftrivial-auto-var-init=pattern", "-Wno-narrowing"]
+HARNESS_FLAGS = ["-O0", "-g1", "-ftrivial-auto-var-init=pattern", "-Wno-narrowing"]   # -O0: 3x shorter build, nothing optimised away
 HARNESS_ENV = {}
 CT_SOURCE = "harness/c02_constexpr.cpp"
 CT_FLAGS = ["-std=c++20", "-fsyntax-only", "-fconstexpr-ops-limit=1000000000", "-fconstexpr-loop-limit=10000000"]
